@@ -119,7 +119,7 @@ def run(tier, seed):
                     first_mismatch.append((table[d[1][0] - 1]["t"], exp, got))
     if first_mismatch:
         chk.notes.append("LineKinds first-line predictions refuted (spec refinement needed, not a violation): %s" % sorted(set(first_mismatch))[:8])
-    acc, rejected, states, info = tlc.validate_trace("LemonParserTrace", os.path.join(VERIF, "spec", "LemonParserTrace.cfg"), ltrace, spec_dirs=(gd,), timeout=1500, heap="16g")
+    acc, rejected, states, info = tlc.validate_trace("LemonParserTrace", os.path.join(VERIF, "spec", "LemonParserTrace.cfg"), ltrace, spec_dirs=(gd,), timeout=1500, heap="16g", independent=True)
     chk.add("traces_validated_against_impl", nsess - len(rejected))
     chk.cov["lemon"] = dict(parser_instances=nsess, parse_calls_validated=acc, rules_exercised=len(rules_seen), rules_total=tables["YYNRULE"],
                             state_kind_pairs_exercised=len(pairs_seen), kinds_observed=sorted(tables["yyTokenName"][k] for k in kinds_seen), trace_states=states)
@@ -157,7 +157,7 @@ def run(tier, seed):
                 ctrace.append(dict(e=ev["e"], doc=(si * per + dj) if dj >= 0 else -1, cmd=ev.get("cmd", ""), fmtline=seg[sl - 1] if 0 < sl <= len(seg) else ""))
         if r["status"] != "ok":
             ctrace.append(dict(e=r["status"], doc=-1, san=r.get("san", "")[:1500], seg=si))
-    acc2, rejected2, states2, info2 = tlc.validate_trace("CompleteTrace", os.path.join(VERIF, "spec", "CompleteTrace.cfg"), ctrace, max_rejects=10, timeout=1500, heap="16g")
+    acc2, rejected2, states2, info2 = tlc.validate_trace("CompleteTrace", os.path.join(VERIF, "spec", "CompleteTrace.cfg"), ctrace, max_rejects=10, timeout=1500, heap="16g", independent=True)
     chk.add("traces_validated_against_impl", len(segs2) - len(rejected2))
     chk.cov["end_to_end"] = dict(documents=len(edocs), conversions=nconv, writers=WRITERS, modes=[m[0] for m in MODES], events_validated=acc2)
     chk.cov["evaluations"] = nconv + acc
